@@ -729,3 +729,1026 @@ Proof.
   assert (Hd : In a (dedup (sort4 l))) by (apply dedup_In_rev; unfold sort4; rewrite sort_by_In; exact Ha).
   destruct (dedup (sort4 l)) as [|x t]; [destruct Hd|]. apply coalesce_markers; auto.
 Qed.
+
+(* ================================================================== C16_line_char_roundtrip *)
+(* --- the lines of a text form a chain: each range starts where the previous one ends --- *)
+Fixpoint chain (lr : list (N * N)) (start : N) : Prop :=
+  match lr with
+  | [] => True
+  | (s, e) :: t => s = start /\ s < e /\ chain t e
+  end.
+
+Lemma line_ranges_chain s : forall start pos, start <= pos -> chain (line_ranges s start pos) start.
+Proof.
+  induction s as [|b r IH]; intros start pos H; cbn [line_ranges].
+  - destruct (start <? pos) eqn:E; cbn [chain]; auto. repeat split; auto. lia.
+  - destruct (b =? 10).
+    + cbn [chain]. repeat split; [lia|]. apply IH. lia.
+    + apply IH. lia.
+Qed.
+
+Lemma chain_nth lr : forall start i s e,
+  chain lr start -> nth_error lr i = Some (s, e) -> start <= s /\ s < e.
+Proof.
+  induction lr as [|[s0 e0] t IH]; intros start i s e Hc Hn; [destruct i; discriminate|].
+  cbn [chain] in Hc. destruct Hc as [H1 [H2 H3]]. destruct i as [|i]; cbn [nth_error] in Hn.
+  - inversion Hn; subst. lia.
+  - apply (IH e0 i s e H3) in Hn. lia.
+Qed.
+
+Lemma chain_mono lr : forall start i j si ei sj ej,
+  chain lr start -> nth_error lr i = Some (si, ei) -> nth_error lr j = Some (sj, ej) ->
+  (i < j)%nat -> ei <= sj.
+Proof.
+  induction lr as [|[s0 e0] t IH]; intros start i j si ei sj ej Hc Hi Hj Hij; [destruct i; discriminate|].
+  cbn [chain] in Hc. destruct Hc as [H1 [H2 H3]].
+  destruct j as [|j]; [lia|]. cbn [nth_error] in Hj. destruct i as [|i]; cbn [nth_error] in Hi.
+  - inversion Hi; subst. apply (chain_nth t ei j sj ej H3) in Hj. lia.
+  - eapply IH; eauto. lia.
+Qed.
+
+Lemma chain_mono_le lr start i j si ei sj ej :
+  chain lr start -> nth_error lr i = Some (si, ei) -> nth_error lr j = Some (sj, ej) ->
+  (i <= j)%nat -> si <= sj /\ ei <= ej.
+Proof.
+  intros Hc Hi Hj Hij. destruct (Nat.eq_dec i j) as [E|E].
+  - subst j. rewrite Hi in Hj. inversion Hj; subst. lia.
+  - pose proof (chain_mono lr start i j si ei sj ej Hc Hi Hj ltac:(lia)).
+    pose proof (chain_nth lr start i si ei Hc Hi). pose proof (chain_nth lr start j sj ej Hc Hj). lia.
+Qed.
+
+(* --- sorting an already sorted list --- *)
+Fixpoint adj {A} (le : A -> A -> bool) (l : list A) : Prop :=
+  match l with
+  | x :: t => match t with y :: _ => le x y = true /\ adj le t | [] => True end
+  | [] => True
+  end.
+
+Lemma sort_by_id {A} (le : A -> A -> bool) l : adj le l -> sort_by le l = l.
+Proof.
+  induction l as [|x t IH]; intros H; cbn [sort_by]; auto.
+  destruct t as [|y t'].
+  - reflexivity.
+  - cbn [adj] in H. destruct H as [H1 H2]. rewrite (IH H2). cbn [insert_by]. rewrite H1. reflexivity.
+Qed.
+
+(* --- merge_lines, read back as (line, author) pairs --- *)
+Fixpoint pairs_from (k : N) (las : list authorship) : list (N * list N) :=
+  match las with
+  | [] => []
+  | x :: t => (if is_human (fst x) then [] else [(k, fst x)]) ++ pairs_from (k + 1) t
+  end.
+
+Lemma span_snoc : forall n a, span a (S n) = span a n ++ [a + N.of_nat n].
+Proof.
+  induction n as [|n IH]; intros a.
+  - cbn. f_equal. lia.
+  - change (span a (S (S n))) with (a :: span (a + 1) (S n)). rewrite IH.
+    cbn [span app]. f_equal. f_equal. f_equal. lia.
+Qed.
+
+Lemma auth_eqb_eq a b : auth_eqb a b = true -> a = b.
+Proof.
+  destruct a as [a1 a2], b as [b1 b2]. unfold auth_eqb. cbn [fst snd]. intros H.
+  apply andb_true_iff in H. destruct H as [H1 H2]. apply str_eqb_eq in H1. subst b1.
+  destruct a2, b2; cbn in H2; try discriminate; auto. apply str_eqb_eq in H2. subst. reflexivity.
+Qed.
+
+Lemma ai_lines_cons x t :
+  ai_lines (x :: t) = (if is_human (l_author x) then [] else lines_of_lattr x) ++ ai_lines t.
+Proof. unfold ai_lines. cbn [filter]. destruct (is_human (l_author x)); reflexivity. Qed.
+
+Lemma merge_consec_pairs : forall l cur start n, start < n ->
+  ai_lines (merge_consec cur start n l) =
+  (if is_human (fst cur) then [] else map (fun k => (k, fst cur)) (span start (N.to_nat (n - start))))
+  ++ pairs_from n l.
+Proof.
+  induction l as [|x t IH]; intros cur start n H; cbn [merge_consec pairs_from].
+  - rewrite ai_lines_cons. cbn [l_author]. unfold ai_lines at 1. cbn [filter flat_map].
+    unfold lines_of_lattr. cbn [l_start l_end l_author].
+    replace (n - 1 + 1 - start) with (n - start) by lia. reflexivity.
+  - destruct (auth_eqb cur x) eqn:E.
+    + apply auth_eqb_eq in E. subst x. rewrite IH by lia.
+      replace (N.to_nat (n + 1 - start)) with (S (N.to_nat (n - start))) by lia.
+      rewrite span_snoc. destruct (is_human (fst cur)); cbn [app]; auto.
+      rewrite map_app. rewrite <- app_assoc. cbn [map app].
+      replace (start + N.of_nat (N.to_nat (n - start))) with n by lia. reflexivity.
+    + rewrite ai_lines_cons. cbn [l_author]. rewrite IH by lia.
+      unfold lines_of_lattr. cbn [l_start l_end l_author].
+      replace (n - 1 + 1 - start) with (n - start) by lia.
+      replace (N.to_nat (n + 1 - n)) with 1%nat by lia. cbn [span map].
+      destruct (is_human (fst x)); reflexivity.
+Qed.
+
+Lemma merge_lines_pairs las : ai_lines (merge_lines las) = pairs_from 1 las.
+Proof.
+  destruct las as [|x t]; [reflexivity|]. unfold merge_lines. rewrite merge_consec_pairs by lia.
+  cbn [pairs_from]. replace (N.to_nat (2 - 1)) with 1%nat by lia. cbn [span map].
+  replace (1 + 1) with 2 by lia. destruct (is_human (fst x)); reflexivity.
+Qed.
+
+Lemma ai_lines_keep l : ai_lines (filter keep_line l) = ai_lines l.
+Proof.
+  unfold ai_lines. f_equal. induction l as [|x t IH]; cbn [filter]; auto.
+  unfold keep_line at 1. destruct (is_human (l_author x)) eqn:E; cbn [negb orb].
+  - destruct (l_overrode x); cbn [filter]; rewrite ?E; cbn [negb]; exact IH.
+  - cbn [filter]. rewrite E. cbn [negb]. f_equal. exact IH.
+Qed.
+
+Lemma pairs_from_app a : forall k b,
+  pairs_from k (a ++ b) = pairs_from k a ++ pairs_from (k + N.of_nat (length a)) b.
+Proof.
+  induction a as [|x t IH]; intros k b; cbn [app pairs_from length].
+  - f_equal. lia.
+  - rewrite IH. rewrite <- app_assoc. f_equal. f_equal. f_equal. lia.
+Qed.
+
+(* --- the attribution that to_chars makes of one line attribution --- *)
+Definition ls_of (lr : list (N * N)) (l : lattr) : N := fst (nth (N.to_nat (l_start l - 1)) lr (0, 0)).
+Definition le_of (lr : list (N * N)) (l : lattr) : N := snd (nth (N.to_nat (l_end l - 1)) lr (0, 0)).
+Definition mk_attr (lr : list (N * N)) (ts : N) (l : lattr) : attr :=
+  mkAttr (ls_of lr l) (le_of lr l) (l_author l) ts.
+
+Definition covers_line (k : N) (l : lattr) : bool := (l_start l <=? k) && (k <=? l_end l).
+Definition line_auth (la : list lattr) (k : N) : list N :=
+  match find (covers_line k) la with Some l => l_author l | None => human end.
+
+(* the Prop reading of wf_lattrs *)
+Definition la_ok (n : N) (l : lattr) : Prop :=
+  1 <= l_start l /\ l_start l <= l_end l /\ l_end l <= n /\ is_human (l_author l) = false.
+
+Lemma la_sorted_ok n : forall la prev,
+  la_sorted prev la = true ->
+  forallb (fun l => (l_end l <=? n) && negb (is_human (l_author l))) la = true ->
+  Forall (la_ok n) la.
+Proof.
+  induction la as [|l t IH]; intros prev Hs Hf; [constructor|].
+  cbn [la_sorted] in Hs. cbn [forallb] in Hf.
+  apply andb_true_iff in Hs. destruct Hs as [Hs Hs3]. apply andb_true_iff in Hs. destruct Hs as [Hs1 Hs2].
+  apply andb_true_iff in Hf. destruct Hf as [Hf1 Hf2]. apply andb_true_iff in Hf1. destruct Hf1 as [Hf1 Hf3].
+  constructor; [|eapply IH; eauto].
+  unfold la_ok. apply negb_true_iff in Hf3. repeat split; auto; lia.
+Qed.
+
+Lemma la_sorted_lt : forall la prev l, la_sorted prev la = true -> In l la -> prev < l_start l.
+Proof.
+  induction la as [|x t IH]; intros prev l Hs Hl; [destruct Hl|].
+  cbn [la_sorted] in Hs.
+  apply andb_true_iff in Hs. destruct Hs as [Hs Hs3]. apply andb_true_iff in Hs. destruct Hs as [Hs1 Hs2].
+  destruct Hl as [Hl|Hl]; [subst; lia|]. apply (IH _ _ Hs3) in Hl. lia.
+Qed.
+
+Lemma nth_pair (lr : list (N * N)) j : (j < length lr)%nat ->
+  nth_error lr j = Some (fst (nth j lr (0, 0)), snd (nth j lr (0, 0))).
+Proof. intros H. rewrite (nth_error_nth' lr (0, 0) H). rewrite <- surjective_pairing. reflexivity. Qed.
+
+Lemma get_line_nth lr n : 1 <= n -> n <= N.of_nat (length lr) ->
+  get_line lr n = Some (nth (N.to_nat (n - 1)) lr (0, 0)).
+Proof.
+  intros H1 H2. unfold get_line.
+  replace ((n <? 1) || (N.of_nat (length lr) <? n)) with false by lia.
+  apply nth_error_nth'. lia.
+Qed.
+
+Lemma to_chars_map c la ts :
+  Forall (la_ok (line_count c)) la -> to_chars la c ts = map (mk_attr (lines_of c) ts) la.
+Proof.
+  intros H. destruct la as [|l0 t0]; [reflexivity|].
+  destruct c as [|b c'].
+  - inversion H as [|? ? Hl]; subst. unfold la_ok in Hl. change (line_count []) with 0 in Hl. lia.
+  - set (c := b :: c') in *. set (la := l0 :: t0) in *.
+    change (to_chars la c ts) with
+      (flat_map (fun l => match get_line (lines_of c) (l_start l), get_line (lines_of c) (l_end l) with
+                          | Some (s, _), Some (_, e) => [mkAttr s e (l_author l) ts]
+                          | _, _ => []
+                          end) la).
+    clearbody la. clear l0 t0. induction la as [|l t IH]; [reflexivity|].
+    inversion H as [|? ? Hl Ht]; subst. cbn [flat_map map]. rewrite (IH Ht).
+    destruct Hl as [L1 [L2 [L3 L4]]]. unfold line_count in L3.
+    rewrite (get_line_nth (lines_of c) (l_start l)) by lia.
+    rewrite (get_line_nth (lines_of c) (l_end l)) by lia.
+    unfold mk_attr, ls_of, le_of.
+    destruct (nth (N.to_nat (l_start l - 1)) (lines_of c) (0, 0)) as [s1 e1].
+    destruct (nth (N.to_nat (l_end l - 1)) (lines_of c) (0, 0)) as [s2 e2]. reflexivity.
+Qed.
+
+Lemma find_none_after : forall la prev k,
+  la_sorted prev la = true -> k <= prev -> find (covers_line k) la = None.
+Proof.
+  induction la as [|l t IH]; intros prev k Hs Hk; [reflexivity|].
+  cbn [la_sorted] in Hs.
+  apply andb_true_iff in Hs. destruct Hs as [Hs Hs3]. apply andb_true_iff in Hs. destruct Hs as [Hs1 Hs2].
+  cbn [find]. unfold covers_line at 1. replace (l_start l <=? k) with false by lia. cbn [andb].
+  eapply IH; eauto. lia.
+Qed.
+
+Section OneLine.
+  Variable c : list N.
+  Variable ts : N.
+  Hypothesis Hc : decode c <> None.
+  Let lr := lines_of c.
+  Let n := line_count c.
+
+  Lemma lr_chain : chain lr 0.
+  Proof. apply line_ranges_chain. lia. Qed.
+
+  (* line i (0-based) = (s, e), contents cs *)
+  Variable i : nat.
+  Variable s e : N.
+  Variable cs : list N.
+  Hypothesis Hi : nth_error lr i = Some (s, e).
+  Hypothesis Hcs : decode (sub c s e) = Some cs.
+  Let k := N.of_nat i + 1.
+
+  Lemma line_good : good_range c (s, e).
+  Proof. apply lines_of_good; auto. eapply nth_error_In; eauto. Qed.
+
+  Lemma lattr_start l : la_ok n l ->
+    exists x, nth_error lr (N.to_nat (l_start l - 1)) = Some (ls_of lr l, x).
+  Proof.
+    intros [L1 [L2 [L3 L4]]]. unfold n, line_count in L3. fold lr in L3.
+    eexists. unfold ls_of. apply nth_pair. lia.
+  Qed.
+
+  Lemma lattr_end l : la_ok n l ->
+    exists x, nth_error lr (N.to_nat (l_end l - 1)) = Some (x, le_of lr l).
+  Proof.
+    intros [L1 [L2 [L3 L4]]]. unfold n, line_count in L3. fold lr in L3.
+    eexists. unfold le_of. apply nth_pair. lia.
+  Qed.
+
+  Lemma overlaps_iff l : la_ok n l ->
+    overlaps (mk_attr lr ts l) s e = covers_line k l.
+  Proof.
+    intros Hl. destruct (lattr_start l Hl) as [x1 H1]. destruct (lattr_end l Hl) as [x2 H2].
+    pose proof Hl as [L1 [L2 [L3 L4]]]. pose proof lr_chain as Hch.
+    pose proof (chain_nth lr 0 i s e Hch Hi) as [_ Hse].
+    unfold overlaps, mk_attr, covers_line. cbn [a_start a_end]. unfold k.
+    destruct (N.leb_spec (l_start l) (N.of_nat i + 1)) as [A|A];
+      destruct (N.leb_spec (N.of_nat i + 1) (l_end l)) as [B|B]; cbn [andb].
+    - pose proof (chain_mono_le lr 0 _ _ _ _ _ _ Hch H1 Hi ltac:(lia)) as [M1 _].
+      pose proof (chain_mono_le lr 0 _ _ _ _ _ _ Hch Hi H2 ltac:(lia)) as [_ M2]. lia.
+    - pose proof (chain_mono lr 0 _ _ _ _ _ _ Hch H2 Hi ltac:(lia)) as M. lia.
+    - pose proof (chain_mono lr 0 _ _ _ _ _ _ Hch Hi H1 ltac:(lia)) as M. lia.
+    - pose proof (chain_mono lr 0 _ _ _ _ _ _ Hch Hi H1 ltac:(lia)) as M. lia.
+  Qed.
+
+  Lemma has_nonws_line l : la_ok n l -> covers_line k l = true ->
+    has_nonws c s e (mk_attr lr ts l) = Ok (existsb (fun ch => negb (is_ws ch)) cs).
+  Proof.
+    intros Hl Hk. destruct (lattr_start l Hl) as [x1 H1]. destruct (lattr_end l Hl) as [x2 H2].
+    pose proof lr_chain as Hch. pose proof line_good as [G1 [G2 [G3 G4]]]. cbn [fst snd] in *.
+    unfold covers_line, k in Hk. apply andb_true_iff in Hk. destruct Hk as [A B].
+    pose proof (chain_mono_le lr 0 _ _ _ _ _ _ Hch H1 Hi ltac:(lia)) as [M1 _].
+    pose proof (chain_mono_le lr 0 _ _ _ _ _ _ Hch Hi H2 ltac:(lia)) as [_ M2].
+    unfold has_nonws, mk_attr. cbn [a_start a_end].
+    replace (N.max s (ls_of lr l)) with s by lia. replace (N.min e (le_of lr l)) with e by lia.
+    replace (s <? e) with true by lia. rewrite G3, G4. replace (s <? e) with true by lia.
+    rewrite str_slice_some by (auto; lia). rewrite Hcs. reflexivity.
+  Qed.
+
+  Lemma cand_none : forall la prev,
+    la_sorted prev la = true -> Forall (la_ok n) la -> k <= prev ->
+    forall empty, candidates c s e empty (map (mk_attr lr ts) la) = Ok [].
+  Proof.
+    induction la as [|l t IH]; intros prev Hs Hf Hk empty; [reflexivity|].
+    inversion Hf as [|? ? Hl Ht]; subst. cbn [map candidates]. rewrite (overlaps_iff l Hl).
+    cbn [la_sorted] in Hs.
+    apply andb_true_iff in Hs. destruct Hs as [Hs Hs3]. apply andb_true_iff in Hs. destruct Hs as [Hs1 Hs2].
+    unfold covers_line. replace (l_start l <=? k) with false by lia. cbn [andb].
+    eapply IH; eauto. lia.
+  Qed.
+
+  Lemma ws_split : existsb (fun ch => negb (is_ws ch)) cs || forallb is_ws cs = true.
+  Proof.
+    clear Hcs. induction cs as [|x t IH]; [reflexivity|]. cbn [existsb forallb].
+    destruct (is_ws x); cbn [negb orb andb]; auto.
+  Qed.
+
+  Lemma cand_rt : forall la prev,
+    la_sorted prev la = true -> Forall (la_ok n) la ->
+    candidates c s e (forallb is_ws cs) (map (mk_attr lr ts) la) =
+    Ok (match find (covers_line k) la with Some l => [mk_attr lr ts l] | None => [] end).
+  Proof.
+    induction la as [|l t IH]; intros prev Hs Hf; [reflexivity|].
+    inversion Hf as [|? ? Hl Ht]; subst. cbn [map candidates find]. rewrite (overlaps_iff l Hl).
+    cbn [la_sorted] in Hs.
+    apply andb_true_iff in Hs. destruct Hs as [Hs Hs3]. apply andb_true_iff in Hs. destruct Hs as [Hs1 Hs2].
+    destruct (covers_line k l) eqn:E.
+    - rewrite (has_nonws_line l Hl E).
+      rewrite (cand_none t (l_end l) Hs3 Ht); [|unfold covers_line in E; lia].
+      rewrite ws_split. reflexivity.
+    - eapply IH; eauto.
+  Qed.
+
+  Lemma line_author_rt la :
+    la_sorted 0 la = true -> Forall (la_ok n) la ->
+    line_author c (map (mk_attr lr ts) la) (s, e) = Ok (line_auth la k, None).
+  Proof.
+    intros Hs Hf. pose proof line_good as [G1 [G2 [G3 G4]]]. cbn [fst snd] in *.
+    unfold line_author. cbn [fst snd]. rewrite str_slice_some by (auto; lia). rewrite Hcs.
+    rewrite (cand_rt la 0 Hs Hf). unfold line_auth.
+    destruct (find (covers_line k) la) as [l|] eqn:E; [|reflexivity].
+    apply find_some in E. destruct E as [E _]. rewrite Forall_forall in Hf. apply Hf in E.
+    destruct E as [_ [_ [_ E]]]. unfold dominant, last_such, mk_attr.
+    cbn [fold_left latest a_author a_ts]. rewrite E. reflexivity.
+  Qed.
+End OneLine.
+
+Lemma map_res_ok {A B} (f : A -> res B) (g : nat -> B) : forall l off,
+  (forall i x, nth_error l i = Some x -> f x = Ok (g (off + i)%nat)) ->
+  map_res f l = Ok (map g (seq off (length l))).
+Proof.
+  induction l as [|x t IH]; intros off H; [reflexivity|]. cbn [map_res length seq map].
+  rewrite (H 0%nat x eq_refl). rewrite (IH (S off)).
+  - replace (off + 0)%nat with off by lia. reflexivity.
+  - intros i y Hy. rewrite (H (S i) y Hy). f_equal. f_equal. lia.
+Qed.
+
+Lemma adj_chars c ts : forall la prev,
+  la_sorted prev la = true -> Forall (la_ok (line_count c)) la ->
+  adj le2 (map (mk_attr (lines_of c) ts) la).
+Proof.
+  induction la as [|l1 t IH]; intros prev Hs Hf; [exact I|].
+  inversion Hf as [|? ? Hl1 Ht]; subst. cbn [la_sorted] in Hs.
+  apply andb_true_iff in Hs. destruct Hs as [Hs Hs3]. apply andb_true_iff in Hs. destruct Hs as [Hs1 Hs2].
+  destruct t as [|l2 t']; [exact I|]. cbn [map adj]. split; [|apply (IH (l_end l1)); auto].
+  inversion Ht as [|? ? Hl2 _]; subst.
+  destruct (lattr_start c 0%nat l1 Hl1) as [x1 H1]. destruct (lattr_start c 0%nat l2 Hl2) as [x2 H2].
+  pose proof (lr_chain c) as Hch.
+  pose proof (la_sorted_lt _ _ l2 Hs3 (or_introl eq_refl)) as Hlt.
+  destruct Hl1 as [A1 [A2 [A3 A4]]]. destruct Hl2 as [B1 [B2 [B3 B4]]].
+  pose proof (chain_mono _ 0 _ _ _ _ _ _ Hch H1 H2 ltac:(lia)) as M.
+  pose proof (chain_nth _ 0 _ _ _ Hch H1) as [_ M1].
+  unfold le2, mk_attr. cbn [a_start a_end]. lia.
+Qed.
+
+Lemma pairs_human : forall l k, Forall (fun x => is_human (fst x) = true) l -> pairs_from k l = [].
+Proof.
+  induction l as [|x t IH]; intros k H; [reflexivity|]. inversion H; subst. cbn [pairs_from].
+  match goal with Hx : is_human (fst x) = true |- _ => rewrite Hx end. cbn [app]. apply IH. auto.
+Qed.
+
+Lemma pairs_const au (f : nat -> authorship) : is_human au = false ->
+  forall m k0 i0, (forall i, (i0 <= i < i0 + m)%nat -> f i = (au, None)) ->
+  pairs_from k0 (map f (seq i0 m)) = map (fun k => (k, au)) (span k0 m).
+Proof.
+  intros Ha. induction m as [|m IH]; intros k0 i0 H; [reflexivity|].
+  cbn [seq map pairs_from span]. rewrite (H i0) by lia. cbn [fst]. rewrite Ha. cbn [app].
+  f_equal. apply IH. intros i Hi. apply H. lia.
+Qed.
+
+Lemma pairs_la m : forall la prev,
+  la_sorted prev la = true -> Forall (la_ok (N.of_nat m)) la -> prev <= N.of_nat m ->
+  pairs_from (prev + 1)
+    (map (fun i => (line_auth la (N.of_nat i + 1), @None (list N))) (seq (N.to_nat prev) (m - N.to_nat prev)))
+  = ai_lines la.
+Proof.
+  induction la as [|l t IH]; intros prev Hs Hf Hp.
+  - apply pairs_human. apply Forall_forall. intros x Hx. apply in_map_iff in Hx.
+    destruct Hx as [i [Hx _]]. subst x. reflexivity.
+  - inversion Hf as [|? ? Hl Ht]; subst. pose proof Hl as [L1 [L2 [L3 L4]]].
+    cbn [la_sorted] in Hs.
+    apply andb_true_iff in Hs. destruct Hs as [Hs Hs3]. apply andb_true_iff in Hs. destruct Hs as [Hs1 Hs2].
+    set (P := N.to_nat prev). set (A := N.to_nat (l_start l)). set (B := N.to_nat (l_end l)).
+    replace (m - P)%nat with ((A - 1 - P) + ((B - (A - 1)) + (m - B)))%nat by lia.
+    rewrite !seq_app, !map_app, !pairs_from_app, !map_length, !seq_length.
+    rewrite ai_lines_cons, L4.
+    (* lines before l: human *)
+    rewrite pairs_human.
+    2:{ apply Forall_forall. intros x Hx. apply in_map_iff in Hx. destruct Hx as [i [Hx Hi]]. subst x.
+        apply in_seq in Hi. cbn [fst]. unfold line_auth. cbn [find]. unfold covers_line at 1.
+        replace (l_start l <=? N.of_nat i + 1) with false by lia. cbn [andb].
+        rewrite (find_none_after t (l_end l)); auto. lia. }
+    cbn [app]. f_equal.
+    + (* the lines of l *)
+      rewrite (pairs_const (l_author l)); auto.
+      * unfold lines_of_lattr. f_equal. f_equal; lia.
+      * intros i Hi. unfold line_auth. cbn [find]. unfold covers_line at 1.
+        replace (l_start l <=? N.of_nat i + 1) with true by lia.
+        replace (N.of_nat i + 1 <=? l_end l) with true by lia. reflexivity.
+    + (* the lines after l *)
+      replace (P + (A - 1 - P) + (B - (A - 1)))%nat with (N.to_nat (l_end l)) by lia.
+      replace (prev + 1 + N.of_nat (A - 1 - P) + N.of_nat (B - (A - 1))) with (l_end l + 1) by lia.
+      rewrite <- (IH (l_end l) Hs3 Ht L3). f_equal. apply map_ext_in. intros i Hi. apply in_seq in Hi.
+      f_equal. unfold line_auth. cbn [find]. unfold covers_line at 1.
+      replace (N.of_nat i + 1 <=? l_end l) with false by lia. rewrite andb_false_r. reflexivity.
+Qed.
+
+Theorem line_char_roundtrip : forall c la ts,
+  valid_utf8 c = true -> wf_lattrs la (line_count c) = true ->
+  exists out, to_lines (to_chars la c ts) c = Ok out /\ ai_lines out = ai_lines la.
+Proof.
+  intros c la ts Hv Hwf. assert (Hc : decode c <> None).
+  { unfold valid_utf8 in Hv. destruct (decode c); congruence. }
+  unfold wf_lattrs in Hwf. apply andb_true_iff in Hwf. destruct Hwf as [Hs Hf0].
+  pose proof (la_sorted_ok _ _ _ Hs Hf0) as Hf.
+  rewrite (to_chars_map c la ts Hf).
+  destruct la as [|l0 t0]; [exists []; split; [destruct c|]; reflexivity|].
+  destruct c as [|b c'].
+  { inversion Hf as [|? ? Hl]; subst. unfold la_ok in Hl. change (line_count []) with 0 in Hl. lia. }
+  set (c := b :: c') in *. set (la := l0 :: t0) in *.
+  unfold to_lines.
+  change (match c, map (mk_attr (lines_of c) ts) la with
+          | [], _ => Ok [] | _, [] => Ok []
+          | _, _ => match map_res (line_author c (sort_by le2 (map (mk_attr (lines_of c) ts) la))) (lines_of c) with
+                    | Panic => Panic
+                    | Ok las => Ok (filter keep_line (merge_lines las))
+                    end
+          end)
+    with (match map_res (line_author c (sort_by le2 (map (mk_attr (lines_of c) ts) la))) (lines_of c) with
+          | Panic => Panic
+          | Ok las => Ok (filter keep_line (merge_lines las))
+          end).
+  rewrite (sort_by_id le2 _ (adj_chars c ts la 0 Hs Hf)).
+  rewrite (map_res_ok _ (fun i => (line_auth la (N.of_nat i + 1), @None (list N))) (lines_of c) 0%nat).
+  - eexists. split; [reflexivity|].
+    rewrite ai_lines_keep, merge_lines_pairs.
+    pose proof (pairs_la (length (lines_of c)) la 0 Hs Hf ltac:(lia)) as Hp.
+    replace (0 + 1) with 1 in Hp by lia. replace (N.to_nat 0) with 0%nat in Hp by lia.
+    rewrite Nat.sub_0_r in Hp. exact Hp.
+  - intros i [s e] Hi. cbn [plus].
+    pose proof (lines_of_good c Hc (s, e) (nth_error_In _ _ Hi)) as [G1 [G2 [G3 G4]]]. cbn [fst snd] in *.
+    pose proof (valid_sub c s e Hc G3 G4 ltac:(lia)) as Hsub.
+    destruct (decode (sub c s e)) as [cs|] eqn:Ecs; [|congruence].
+    apply (line_author_rt c ts Hc i s e cs Hi Ecs la Hs Hf).
+Qed.
+
+(* ================================================================== the script, segment by segment *)
+Lemma cat_new_app a b : cat_new (a ++ b) = cat_new a ++ cat_new b.
+Proof. unfold cat_new. apply flat_map_app. Qed.
+Lemma cat_old_app a b : cat_old (a ++ b) = cat_old a ++ cat_old b.
+Proof. unfold cat_old. apply flat_map_app. Qed.
+
+Lemma insertions_app a : forall b np,
+  insertions (a ++ b) np = insertions a np ++ insertions b (np + blen (cat_new a)).
+Proof.
+  induction a as [|[o d] t IH]; intros b np; cbn [app insertions].
+  - change (cat_new []) with (@nil N). rewrite blen_nil. f_equal. lia.
+  - unfold cat_new. cbn [flat_map fst snd]. fold (cat_new t).
+    destruct o; rewrite IH; try rewrite blen_app; cbn [app].
+    + replace (np + blen d + blen (cat_new t)) with (np + (blen d + blen (cat_new t))) by lia. reflexivity.
+    + reflexivity.
+    + replace (np + blen d + blen (cat_new t)) with (np + (blen d + blen (cat_new t))) by lia. reflexivity.
+Qed.
+
+(* running a prefix of the script, then the rest *)
+Lemma transform_go_app attrs ins ms subst author ts : forall pre rest op np di ii pw last l,
+  transform_go (pre ++ rest) attrs ins ms subst author ts op np di ii pw last = Ok l ->
+  exists l1 l2 pw' last',
+    transform_go pre attrs ins ms subst author ts op np di ii pw last = Ok l1 /\
+    transform_go rest attrs ins ms subst author ts (op + blen (cat_old pre)) (np + blen (cat_new pre))
+                 (di + ndel pre) (ii + nins pre) pw' last' = Ok l2 /\
+    l = l1 ++ l2.
+Proof.
+  induction pre as [|[o d] t IH]; intros rest op np di ii pw last l H.
+  - exists [], l, pw, last. cbn [app] in H. cbn [transform_go ndel nins].
+    change (cat_old []) with (@nil N). change (cat_new []) with (@nil N). rewrite blen_nil.
+    replace (op + 0) with op by lia. replace (np + 0) with np by lia.
+    replace (di + 0) with di by lia. replace (ii + 0) with ii by lia. auto.
+  - cbn [app transform_go] in H. cbn [transform_go].
+    unfold cat_old, cat_new. cbn [flat_map fst snd]. fold (cat_old t). fold (cat_new t).
+    destruct o.
+    + match type of H with match ?X with _ => _ end = _ => destruct X as [r|] eqn:E; [|discriminate] end.
+      inversion H; subst l. apply IH in E. destruct E as [l1 [l2 [pw' [last' [E1 [E2 E3]]]]]].
+      exists (eq_step attrs op np (blen d) ++ l1), l2, pw', last'. rewrite E1. cbn [ndel nins].
+      rewrite !blen_app. split; [reflexivity|]. split.
+      * replace (op + (blen d + blen (cat_old t))) with (op + blen d + blen (cat_old t)) by lia.
+        replace (np + (blen d + blen (cat_new t))) with (np + blen d + blen (cat_new t)) by lia. exact E2.
+      * subst r. rewrite app_assoc. reflexivity.
+    + destruct (del_step attrs ins ms author ts op np di d) as [outs|] eqn:Ed; [|discriminate].
+      match type of H with match ?X with _ => _ end = _ => destruct X as [r|] eqn:E; [|discriminate] end.
+      inversion H; subst l. apply IH in E. destruct E as [l1 [l2 [pw' [last' [E1 [E2 E3]]]]]].
+      exists (outs ++ l1), l2, pw', last'. rewrite E1. cbn [ndel nins app].
+      rewrite !blen_app. split; [reflexivity|]. split.
+      * replace (op + (blen d + blen (cat_old t))) with (op + blen d + blen (cat_old t)) by lia.
+        replace (di + (1 + ndel t)) with (di + 1 + ndel t) by lia. exact E2.
+      * subst r. rewrite app_assoc. reflexivity.
+    + destruct (ins_step attrs ms subst author ts op np ii pw last d) as [outs|] eqn:Ed; [|discriminate].
+      match type of H with match ?X with _ => _ end = _ => destruct X as [r|] eqn:E; [|discriminate] end.
+      inversion H; subst l. apply IH in E. destruct E as [l1 [l2 [pw' [last' [E1 [E2 E3]]]]]].
+      exists (outs ++ l1), l2, pw', last'. rewrite E1. cbn [ndel nins app].
+      rewrite !blen_app. split; [reflexivity|]. split.
+      * replace (np + (blen d + blen (cat_new t))) with (np + blen d + blen (cat_new t)) by lia.
+        replace (ii + (1 + nins t)) with (ii + 1 + nins t) by lia. exact E2.
+      * subst r. rewrite app_assoc. reflexivity.
+Qed.
+
+(* where an output can lie: empty, inside the part of the new text the run covers, or inside an insertion *)
+Definition src_ok (ins : list (N * N)) (lo hi : N) (a : attr) : Prop :=
+  a_start a = a_end a \/ (lo <= a_start a /\ a_end a <= hi) \/
+  (exists is_ ie, In (is_, ie) ins /\ is_ <= a_start a /\ a_end a <= ie).
+
+Lemma src_ok_widen ins lo hi lo' hi' a : lo' <= lo -> hi <= hi' -> src_ok ins lo hi a -> src_ok ins lo' hi' a.
+Proof. unfold src_ok. intros H1 H2 [H|[H|H]]; [left; auto|right; left; lia|right; right; auto]. Qed.
+
+Lemma move_step_src attrs ins op m n l lo hi :
+  mv_fits ins n m -> move_step attrs ins op m = Ok l -> Forall (src_ok ins lo hi) l.
+Proof.
+  intros [is_ [ie [Hn [Hie [Hle Hfit]]]]]. unfold move_step. rewrite Hn.
+  destruct (op + m_s0 m <? op + m_s1 m) eqn:E; intros H; inversion H; subst; [|constructor].
+  apply Forall_forall. intros a Ha. apply in_flat_map in Ha. destruct Ha as [x [_ Ha]].
+  destruct (inter x (op + m_s0 m) (op + m_s1 m)) as [[os oe]|] eqn:Ei; [|destruct Ha].
+  apply inter_spec in Ei.
+  destruct (is_ + m_t0 m + (os - (op + m_s0 m)) <? is_ + m_t0 m + (os - (op + m_s0 m)) + (oe - os)); [|destruct Ha].
+  destruct Ha as [Ha|[]]. subst a. right. right. exists is_, ie. split.
+  - eapply nth_error_In; eauto.
+  - cbn. lia.
+Qed.
+
+Lemma move_steps_src attrs ins op n lo hi ms : forall l,
+  Forall (mv_fits ins n) ms -> move_steps attrs ins op ms = Ok l -> Forall (src_ok ins lo hi) l.
+Proof.
+  induction ms as [|m t IH]; intros l Hf H; cbn [move_steps] in H.
+  - inversion H. constructor.
+  - inversion Hf; subst.
+    destruct (move_step attrs ins op m) as [a|] eqn:E1; [|discriminate].
+    destruct (move_steps attrs ins op t) as [b|] eqn:E2; [|discriminate].
+    inversion H; subst. apply Forall_app. split.
+    + eapply move_step_src; eauto.
+    + apply IH; auto.
+Qed.
+
+Lemma del_step_src attrs ins ms author ts op np di d n l lo hi :
+  Forall (mv_fits ins n) ms ->
+  del_step attrs ins ms author ts op np di d = Ok l -> Forall (src_ok ins lo hi) l.
+Proof.
+  intros Hf. unfold del_step. destruct (has_moves_del ms di).
+  - apply (move_steps_src attrs ins op n). apply Forall_forall. intros m Hm. apply moves_for_del_In in Hm.
+    rewrite Forall_forall in Hf. auto.
+  - destruct (negb (data_is_ws d)); intros H; inversion H; subst; [|constructor].
+    constructor; [|constructor]. left. reflexivity.
+Qed.
+
+Lemma transform_go_src attrs ins ms subst author ts n : forall segs op np di ii pw last l,
+  Forall (mv_fits ins n) ms ->
+  transform_go segs attrs ins ms subst author ts op np di ii pw last = Ok l ->
+  Forall (src_ok ins np (np + blen (cat_new segs))) l.
+Proof.
+  induction segs as [|[o d] t IH]; intros op np di ii pw last l Hf H; cbn [transform_go] in H.
+  - inversion H. constructor.
+  - unfold cat_new. cbn [flat_map fst snd]. fold (cat_new t).
+    destruct o.
+    + rewrite blen_app.
+      match type of H with match ?X with _ => _ end = _ => destruct X as [r|] eqn:E; [|discriminate] end.
+      inversion H; subst. apply Forall_app. split.
+      * apply Forall_forall. intros a Ha. apply eq_step_inside in Ha. right. left.
+        unfold inside in Ha. lia.
+      * apply IH in E; auto. eapply Forall_impl; [|exact E]. intros a. apply src_ok_widen; lia.
+    + cbn [app].
+      destruct (del_step attrs ins ms author ts op np di d) as [outs|] eqn:Ed; [|discriminate].
+      match type of H with match ?X with _ => _ end = _ => destruct X as [r|] eqn:E; [|discriminate] end.
+      inversion H; subst. apply Forall_app. split.
+      * eapply del_step_src; eauto.
+      * apply IH in E; auto.
+    + rewrite blen_app.
+      destruct (ins_step attrs ms subst author ts op np ii pw last d) as [outs|] eqn:Ed; [|discriminate].
+      match type of H with match ?X with _ => _ end = _ => destruct X as [r|] eqn:E; [|discriminate] end.
+      inversion H; subst. apply Forall_app. split.
+      * apply ins_step_inside in Ed. eapply Forall_impl; [|exact Ed]. intros a Ha. right. left.
+        unfold inside in Ha. lia.
+      * apply IH in E; auto. eapply Forall_impl; [|exact E]. intros a. apply src_ok_widen; lia.
+Qed.
+
+(* ================================================================== C16_equal_keeps *)
+Lemma covers_app l1 l2 p au ts : covers (l1 ++ l2) p au ts <-> covers l1 p au ts \/ covers l2 p au ts.
+Proof.
+  unfold covers. split.
+  - intros [a [Ha R]]. apply in_app_or in Ha. destruct Ha; [left|right]; exists a; auto.
+  - intros [[a [Ha R]]|[a [Ha R]]]; exists a; split; auto; apply in_or_app; auto.
+Qed.
+
+Lemma eq_step_covers attrs op np len k au ts : k < len ->
+  covers (eq_step attrs op np len) (np + k) au ts <-> covers attrs (op + k) au ts.
+Proof.
+  intros Hk. unfold covers, eq_step. split.
+  - intros [a [Ha [A [B [C D]]]]]. apply in_flat_map in Ha. destruct Ha as [x [Hx Ha]].
+    destruct (inter x op (op + len)) as [[os oe]|] eqn:E; [|destruct Ha].
+    apply inter_spec in E. destruct Ha as [Ha|[]]. subst a. cbn in *.
+    exists x. repeat split; auto; lia.
+  - intros [x [Hx [A [B [C D]]]]].
+    exists (mkAttr (np + (N.max (a_start x) op - op))
+                   (np + (N.max (a_start x) op - op) + (N.min (a_end x) (op + len) - N.max (a_start x) op))
+                   (a_author x) (a_ts x)).
+    split; [|cbn; repeat split; auto; lia].
+    apply in_flat_map. exists x. split; auto. unfold inter.
+    replace (N.max (a_start x) op <? N.min (a_end x) (op + len)) with true by lia. left. reflexivity.
+Qed.
+
+(* an output that lies in the wrong place covers no byte of [lo, hi) *)
+Lemma src_ok_misses lo hi l p au ts :
+  Forall (fun a => a_start a = a_end a \/ a_end a <= lo \/ hi <= a_start a) l ->
+  lo <= p -> p < hi -> ~ covers l p au ts.
+Proof.
+  intros Hf H1 H2 [a [Ha [_ [_ [C D]]]]]. rewrite Forall_forall in Hf. apply Hf in Ha. lia.
+Qed.
+
+Theorem equal_keeps : forall attrs author ts f out pre d post,
+  moves_fit f = true -> f_segs f = pre ++ (DEq, d) :: post ->
+  update attrs author ts f = Ok out ->
+  forall k au t, k < blen d ->
+    (covers out (blen (cat_new pre) + k) au t <-> covers attrs (blen (cat_old pre) + k) au t).
+Proof.
+  intros attrs author ts f out pre d post Hfit Hsegs H k au t Hk.
+  unfold update in H. destruct (transform f (sort4 attrs) author ts) as [l|] eqn:E; [|discriminate].
+  inversion H; subst out. rewrite merge_coverage.
+  unfold transform in E. pose proof (moves_fit_spec f Hfit) as Hmf.
+  set (ins := insertions (f_segs f) 0) in *. set (n := blen (cat_new (f_segs f))) in *.
+  rewrite Hsegs in E. apply transform_go_app in E.
+  destruct E as [l1 [l2 [pw' [last' [E1 [E2 E3]]]]]].
+  replace (0 + blen (cat_old pre)) with (blen (cat_old pre)) in E2 by lia.
+  replace (0 + blen (cat_new pre)) with (blen (cat_new pre)) in E2 by lia.
+  set (opE := blen (cat_old pre)) in *. set (npE := blen (cat_new pre)) in *.
+  cbn [transform_go] in E2.
+  match type of E2 with match ?X with _ => _ end = _ => destruct X as [r|] eqn:E4; [|discriminate] end.
+  inversion E2; subst l2. subst l.
+  (* the insertions are below or above the segment *)
+  assert (Hins : forall is_ ie, In (is_, ie) ins -> ie <= npE \/ npE + blen d <= is_).
+  { intros is_ ie Hi. unfold ins in Hi. rewrite Hsegs, insertions_app in Hi.
+    apply in_app_or in Hi. destruct Hi as [Hi|Hi].
+    - apply insertions_bound in Hi. cbn [fst snd] in Hi. left. unfold npE. lia.
+    - cbn [insertions] in Hi. apply insertions_bound in Hi. cbn [fst snd] in Hi. right. unfold npE. lia. }
+  apply (transform_go_src _ _ _ _ _ _ n) in E1; auto.
+  apply (transform_go_src _ _ _ _ _ _ n) in E4; auto.
+  rewrite !covers_app.
+  assert (N1 : ~ covers l1 (npE + k) au t).
+  { apply (src_ok_misses npE (npE + blen d)); try lia.
+    eapply Forall_impl; [|exact E1]. intros a [Ha|[Ha|[is_ [ie [Hi Ha]]]]]; [left; auto|right; left; unfold npE; lia|].
+    apply Hins in Hi. destruct Hi; [right; left|right; right]; lia. }
+  assert (N2 : ~ covers r (npE + k) au t).
+  { apply (src_ok_misses npE (npE + blen d)); try lia.
+    eapply Forall_impl; [|exact E4]. intros a [Ha|[Ha|[is_ [ie [Hi Ha]]]]]; [left; auto|right; right; lia|].
+    apply Hins in Hi. destruct Hi; [right; left|right; right]; lia. }
+  rewrite (eq_step_covers (sort4 attrs) opE npE (blen d) k au t Hk).
+  rewrite (covers_equiv (sort4 attrs) attrs (fun a => sort_by_In le4 attrs a)). tauto.
+Qed.
+
+(* ================================================================== C16_new_is_authors *)
+Lemma merged_in : forall l cur s e, In (s, e) (merge_sorted_ranges cur l) ->
+  forall k, s <= k -> k < e ->
+  (match cur with Some (cs, ce) => cs <= k /\ k < ce | None => False end) \/
+  (exists r, In r l /\ fst r <= k /\ k < snd r).
+Proof.
+  induction l as [|[s0 e0] t IH]; intros cur s e Hin k H1 H2; cbn [merge_sorted_ranges] in Hin.
+  - destruct cur as [[cs ce]|]; [|destruct Hin]. destruct Hin as [Hin|[]]. inversion Hin; subst. left. lia.
+  - destruct (e0 <=? s0) eqn:E0.
+    { destruct (IH cur s e Hin k H1 H2) as [L|[r [Hr R]]]; [left; exact L|right; exists r; split; [right; exact Hr|exact R]]. }
+    destruct cur as [[cs ce]|].
+    + destruct (s0 <=? ce) eqn:E1.
+      * destruct (IH _ s e Hin k H1 H2) as [L|[r [Hr R]]].
+        -- destruct (N.ltb_spec k ce); [left; lia|right; exists (s0, e0); split; [left; reflexivity|cbn; lia]].
+        -- right. exists r. split; [right; exact Hr|exact R].
+      * destruct Hin as [Hin|Hin]; [inversion Hin; subst; left; lia|].
+        destruct (IH _ s e Hin k H1 H2) as [L|[r [Hr R]]].
+        -- right. exists (s0, e0). split; [left; reflexivity|cbn; lia].
+        -- right. exists r. split; [right; exact Hr|exact R].
+    + destruct (IH _ s e Hin k H1 H2) as [L|[r [Hr R]]].
+      * right. exists (s0, e0). split; [left; reflexivity|cbn; lia].
+      * right. exists r. split; [right; exact Hr|exact R].
+Qed.
+
+Lemma gaps_cover author ts np len : forall l cursor k,
+  cursor <= k -> k < len -> (forall r, In r l -> ~ (fst r <= k /\ k < snd r)) ->
+  covers (gaps author ts np len cursor l) (np + k) author ts.
+Proof.
+  induction l as [|[s e] t IH]; intros cursor k H1 H2 Hn; cbn [gaps].
+  - replace (cursor <? len) with true by lia.
+    exists (mkAttr (np + cursor) (np + len) author ts). split; [left; reflexivity|cbn; repeat split; auto; lia].
+  - apply covers_app. destruct (N.ltb_spec k (N.min s len)) as [A|A].
+    + left. replace (cursor <? N.min s len) with true by lia.
+      exists (mkAttr (np + cursor) (np + N.min s len) author ts). split; [left; reflexivity|cbn; repeat split; auto; lia].
+    + right. apply IH; auto.
+      * pose proof (Hn (s, e) (or_introl eq_refl)) as Hse. cbn [fst snd] in Hse. lia.
+      * intros r Hr. apply Hn. right. exact Hr.
+Qed.
+
+Lemma in_target_false ms i k : in_target ms i k = false ->
+  forall r, In r (ranges_for_ins ms i) -> ~ (fst r <= k /\ k < snd r).
+Proof.
+  unfold in_target. intros H r Hr [A B].
+  assert (existsb (fun r => (fst r <=? k) && (k <? snd r)) (ranges_for_ins ms i) = true).
+  { apply existsb_exists. exists r. split; auto. lia. }
+  congruence.
+Qed.
+
+Lemma ins_step_covers attrs ms subst author ts op np ii pw last d outs k :
+  ins_step attrs ms subst author ts op np ii pw last d = Ok outs ->
+  k < blen d -> in_target ms ii k = false ->
+  (has_targets ms ii = true \/ mem 10 d = true \/ ranges_intersect subst np (np + blen d) = true) ->
+  covers outs (np + k) author ts.
+Proof.
+  intros H Hk Ht Hc. unfold ins_step in H. unfold has_targets in Hc.
+  pose proof (in_target_false ms ii k Ht) as Hnt.
+  destruct (ranges_for_ins ms ii) as [|r0 rs] eqn:Er.
+  - destruct Hc as [Hc|[Hc|Hc]]; [discriminate| |].
+    + rewrite Hc in H. inversion H; subst.
+      exists (mkAttr np (np + blen d) author ts). split; [left; reflexivity|cbn; repeat split; auto; lia].
+    + destruct (mem 10 d); rewrite ?Hc in H; inversion H; subst;
+        exists (mkAttr np (np + blen d) author ts); (split; [left; reflexivity|cbn; repeat split; auto; lia]).
+  - inversion H; subst. apply gaps_cover; auto; try lia.
+    intros [s e] Hr [A B]. cbn [fst snd] in *. unfold merged_targets in Hr.
+    destruct (merged_in _ None s e Hr k A B) as [[]|[r [Hr2 R]]].
+    rewrite sort_by_In in Hr2. apply (Hnt r Hr2). lia.
+Qed.
+
+Theorem new_is_authors : forall attrs author ts f out pre d post,
+  f_segs f = pre ++ (DIns, d) :: post ->
+  update attrs author ts f = Ok out ->
+  forall k, k < blen d ->
+    in_target (f_moves f) (nins pre) k = false ->
+    (has_targets (f_moves f) (nins pre) = true \/ mem 10 d = true \/
+     ranges_intersect (f_subst f) (blen (cat_new pre)) (blen (cat_new pre) + blen d) = true) ->
+    covers out (blen (cat_new pre) + k) author ts.
+Proof.
+  intros attrs author ts f out pre d post Hsegs H k Hk Ht Hc.
+  unfold update in H. destruct (transform f (sort4 attrs) author ts) as [l|] eqn:E; [|discriminate].
+  inversion H; subst out. rewrite merge_coverage.
+  unfold transform in E. rewrite Hsegs in E at 1. apply transform_go_app in E.
+  destruct E as [l1 [l2 [pw' [last' [E1 [E2 E3]]]]]].
+  replace (0 + blen (cat_new pre)) with (blen (cat_new pre)) in E2 by lia.
+  replace (0 + nins pre) with (nins pre) in E2 by lia.
+  cbn [transform_go] in E2.
+  match type of E2 with match ?X with _ => _ end = _ => destruct X as [outs|] eqn:E3'; [|discriminate] end.
+  match type of E2 with match ?X with _ => _ end = _ => destruct X as [r|] eqn:E4; [|discriminate] end.
+  inversion E2; subst l2. subst l. rewrite !covers_app. right. left.
+  eapply ins_step_covers; eauto.
+Qed.
+
+(* ================================================================== C16_update_total *)
+Definition ordered (a : attr) : Prop := a_start a <= a_end a.
+
+Lemma best_overlap_total : forall l p best,
+  Forall ordered l -> (forall b, best = Some b -> ordered b) -> best_overlap l p best <> Panic.
+Proof.
+  induction l as [|a t IH]; intros p best Hf Hb; cbn [best_overlap]; [congruence|].
+  inversion Hf as [|? ? Ha Ht]; subst.
+  destruct (p <? a_start a); [congruence|].
+  destruct best as [b|].
+  - pose proof (Hb b eq_refl) as Hob. unfold ordered in *.
+    destruct (a_ts b <? a_ts a).
+    + apply IH; auto. intros b0. destruct (overlaps a p (p + 1) && true); intros Hx; inversion Hx; subst; auto.
+    + destruct (a_ts a =? a_ts b).
+      * replace ((a_end a <? a_start a) || (a_end b <? a_start b)) with false by lia.
+        apply IH; auto. intros b0.
+        destruct (overlaps a p (p + 1) && (a_end b - a_start b <? a_end a - a_start a)); intros Hx; inversion Hx; subst; auto.
+      * apply IH; auto. intros b0. destruct (overlaps a p (p + 1) && false); intros Hx; inversion Hx; subst; auto.
+  - apply IH; auto. intros b0. destruct (overlaps a p (p + 1) && true); intros Hx; inversion Hx; subst; auto.
+Qed.
+
+Lemma split_cursor_rest : forall l p before, Forall ordered l -> Forall ordered (snd (split_cursor l p before)).
+Proof.
+  induction l as [|a t IH]; intros p before Hf; cbn [split_cursor]; [constructor|].
+  inversion Hf; subst. destruct (a_end a <=? p); [apply IH; auto|exact Hf].
+Qed.
+
+Lemma find_attr_ins_total l p : Forall ordered l -> find_attr_ins l p <> Panic.
+Proof.
+  intros Hf. unfold find_attr_ins. destruct l as [|a0 t0]; [congruence|].
+  pose proof (split_cursor_rest (a0 :: t0) p None Hf) as Hr.
+  destruct (split_cursor (a0 :: t0) p None) as [before rest]. cbn [snd] in Hr.
+  pose proof (best_overlap_total rest p None Hr ltac:(congruence)) as Hb.
+  destruct (best_overlap rest p None) as [[b|]|]; congruence.
+Qed.
+
+Lemma ins_step_total attrs ms subst author ts op np ii pw last d :
+  Forall ordered attrs -> ins_step attrs ms subst author ts op np ii pw last d <> Panic.
+Proof.
+  intros Hf. unfold ins_step. destruct (ranges_for_ins ms ii); [|congruence].
+  pose proof (find_attr_ins_total attrs op Hf) as Hfa.
+  destruct (mem 10 d); [congruence|]. destruct (ranges_intersect subst np (np + blen d)); [congruence|].
+  destruct (pw && data_is_ws d).
+  - destruct (find_attr_ins attrs op); congruence.
+  - destruct last; [congruence|]. destruct (find_attr_ins attrs op); congruence.
+Qed.
+
+Lemma move_steps_total attrs ins op n ms :
+  Forall (mv_fits ins n) ms -> move_steps attrs ins op ms <> Panic.
+Proof.
+  induction ms as [|m t IH]; intros Hf; cbn [move_steps]; [congruence|].
+  inversion Hf as [|? ? Hm Ht]; subst.
+  assert (H1 : move_step attrs ins op m <> Panic).
+  { destruct Hm as [is_ [ie [Hn _]]]. unfold move_step. rewrite Hn.
+    destruct (op + m_s0 m <? op + m_s1 m); congruence. }
+  destruct (move_step attrs ins op m); [|congruence].
+  pose proof (IH Ht) as H2. destruct (move_steps attrs ins op t); congruence.
+Qed.
+
+Lemma del_step_total attrs ins ms author ts op np di d n :
+  Forall (mv_fits ins n) ms -> del_step attrs ins ms author ts op np di d <> Panic.
+Proof.
+  intros Hf. unfold del_step. destruct (has_moves_del ms di).
+  - apply (move_steps_total attrs ins op n). apply Forall_forall. intros m Hm.
+    apply moves_for_del_In in Hm. rewrite Forall_forall in Hf. auto.
+  - destruct (negb (data_is_ws d)); congruence.
+Qed.
+
+Lemma transform_go_total attrs ins ms subst author ts n : forall segs op np di ii pw last,
+  Forall (mv_fits ins n) ms -> Forall ordered attrs ->
+  transform_go segs attrs ins ms subst author ts op np di ii pw last <> Panic.
+Proof.
+  induction segs as [|[o d] t IH]; intros op np di ii pw last Hf Ho; cbn [transform_go]; [congruence|].
+  destruct o.
+  - match goal with |- match ?X with _ => _ end <> _ => assert (Hx : X <> Panic) by (apply IH; auto); destruct X; congruence end.
+  - pose proof (del_step_total attrs ins ms author ts op np di d n Hf) as Hd.
+    destruct (del_step attrs ins ms author ts op np di d); [|congruence].
+    match goal with |- match ?X with _ => _ end <> _ => assert (Hx : X <> Panic) by (apply IH; auto); destruct X; congruence end.
+  - pose proof (ins_step_total attrs ms subst author ts op np ii pw last d Ho) as Hd.
+    destruct (ins_step attrs ms subst author ts op np ii pw last d); [|congruence].
+    match goal with |- match ?X with _ => _ end <> _ => assert (Hx : X <> Panic) by (apply IH; auto); destruct X; congruence end.
+Qed.
+
+Theorem update_total : forall attrs author ts f,
+  moves_fit f = true -> forallb attr_ordered attrs = true -> update attrs author ts f <> Panic.
+Proof.
+  intros attrs author ts f Hfit Ho. unfold update.
+  assert (Ht : transform f (sort4 attrs) author ts <> Panic).
+  { unfold transform. eapply transform_go_total.
+    - apply moves_fit_spec. exact Hfit.
+    - apply Forall_forall. intros a Ha. unfold sort4 in Ha. rewrite sort_by_In in Ha.
+      rewrite forallb_forall in Ho. apply Ho in Ha. unfold attr_ordered in Ha. unfold ordered. lia. }
+  destruct (transform f (sort4 attrs) author ts); congruence.
+Qed.
+
+(* ================================================================== what wf_diff says *)
+Lemma wf_diff_spec old new f : wf_diff old new f = true ->
+  cat_old (f_segs f) = old /\ cat_new (f_segs f) = new /\
+  seg_bounds_ok old new (f_segs f) 0 0 = true /\
+  Forall (fun r => fst r <= snd r /\ snd r <= blen new) (f_subst f).
+Proof.
+  unfold wf_diff. intros H. repeat (apply andb_true_iff in H; destruct H as [H ?]).
+  apply list_eqb_eq in H. match goal with Hn : list_eqb (cat_new _) new = true |- _ => apply list_eqb_eq in Hn end.
+  repeat split; auto. apply Forall_forall. intros r Hr.
+  match goal with Hf : forallb _ (f_subst f) = true |- _ => rewrite forallb_forall in Hf; apply Hf in Hr end. lia.
+Qed.
+
+(* ================================================================== witnesses (facts taken from real runs) *)
+(* wK1: old='    aaa\n    bbb\n    ccc\nX\nY\nZ\n' new='X\nY\nZ\naaa\nbbb\nccc\n' attrs=[(0, 24, 'ai_1', 5)] author='ai_9' ts=100 *)
+Definition wK1_old : list N := [32; 32; 32; 32; 97; 97; 97; 10; 32; 32; 32; 32; 98; 98; 98; 10; 32; 32; 32; 32; 99; 99; 99; 10; 88; 10; 89; 10; 90; 10].
+Definition wK1_new : list N := [88; 10; 89; 10; 90; 10; 97; 97; 97; 10; 98; 98; 98; 10; 99; 99; 99; 10].
+Definition wK1_attrs : list attr := [mkAttr 0 24 [97; 105; 95; 49] 5].
+Definition wK1_author : list N := [97; 105; 95; 57].
+Definition wK1_facts : facts := mkFacts
+  [(DDel, [32; 32; 32; 32]); (DDel, [97; 97; 97; 10; 32; 32; 32; 32; 98; 98; 98; 10; 32; 32; 32; 32; 99; 99; 99]); (DDel, [10]); (DEq, [88; 10; 89; 10; 90; 10]); (DIns, [97; 97; 97; 10; 98; 98; 98; 10; 99; 99; 99]); (DIns, [10])]
+  [(6, 17)]
+  [mkMv 1 0 0 19 0 11].
+
+(* wK1b: old='    aaa\n    bbb\n    ccc\nX\nY\nZ\nW\n' new='X\nY\nZ\naaa\nbbb\nccc\nW\n' attrs=[(0, 24, 'ai_1', 5)] author='ai_9' ts=100 *)
+Definition wK1b_old : list N := [32; 32; 32; 32; 97; 97; 97; 10; 32; 32; 32; 32; 98; 98; 98; 10; 32; 32; 32; 32; 99; 99; 99; 10; 88; 10; 89; 10; 90; 10; 87; 10].
+Definition wK1b_new : list N := [88; 10; 89; 10; 90; 10; 97; 97; 97; 10; 98; 98; 98; 10; 99; 99; 99; 10; 87; 10].
+Definition wK1b_attrs : list attr := [mkAttr 0 24 [97; 105; 95; 49] 5].
+Definition wK1b_author : list N := [97; 105; 95; 57].
+Definition wK1b_facts : facts := mkFacts
+  [(DDel, [32; 32; 32; 32]); (DDel, [97; 97; 97; 10; 32; 32; 32; 32; 98; 98; 98; 10; 32; 32; 32; 32; 99; 99; 99]); (DDel, [10]); (DEq, [88; 10; 89; 10; 90; 10]); (DIns, [97; 97; 97; 10; 98; 98; 98; 10; 99; 99; 99]); (DIns, [10]); (DEq, [87; 10])]
+  [(6, 17)]
+  [mkMv 1 0 0 19 0 11].
+
+(* wK4: old='ab cd' new='ab  cd' attrs=[(0, 5, 'ai_1', 5), (3, 2, 'ai_1', 5)] author='ai_9' ts=100 *)
+Definition wK4_old : list N := [97; 98; 32; 99; 100].
+Definition wK4_new : list N := [97; 98; 32; 32; 99; 100].
+Definition wK4_attrs : list attr := [mkAttr 0 5 [97; 105; 95; 49] 5; mkAttr 3 2 [97; 105; 95; 49] 5].
+Definition wK4_author : list N := [97; 105; 95; 57].
+Definition wK4_facts : facts := mkFacts
+  [(DEq, [97; 98]); (DDel, [32]); (DIns, [32; 32]); (DEq, [99; 100])]
+  []
+  [].
+
+(* wK2: old='a\n' new='a\n' attrs=[(0, 2, 'zed', 5), (0, 2, 'amy', 5)] author='ai_9' ts=100 *)
+Definition wK2_old : list N := [97; 10].
+Definition wK2_new : list N := [97; 10].
+Definition wK2_attrs : list attr := [mkAttr 0 2 [122; 101; 100] 5; mkAttr 0 2 [97; 109; 121] 5].
+Definition wK2_author : list N := [97; 105; 95; 57].
+Definition wK2_facts : facts := mkFacts
+  [(DEq, [97; 10])]
+  []
+  [].
+
+(* wK3: old='abc\n' new='abc\n' attrs=[(0, 4, 'human', 1), (2, 2, 'ai_1', 9)] author='ai_9' ts=100 *)
+Definition wK3_old : list N := [97; 98; 99; 10].
+Definition wK3_new : list N := [97; 98; 99; 10].
+Definition wK3_attrs : list attr := [mkAttr 0 4 [104; 117; 109; 97; 110] 1; mkAttr 2 2 [97; 105; 95; 49] 9].
+Definition wK3_author : list N := [97; 105; 95; 57].
+Definition wK3_facts : facts := mkFacts
+  [(DEq, [97; 98; 99; 10])]
+  []
+  [].
+
+(* wOK: old='aaa\nbbb\nccc\nX\nY\nZ\n' new='X\nY\nZ\naaa\nbbb\nccc\nnew é\n' attrs=[(0, 12, 'ai_1', 5), (12, 18, 'human', 3)] author='ai_9' ts=100 *)
+Definition wOK_old : list N := [97; 97; 97; 10; 98; 98; 98; 10; 99; 99; 99; 10; 88; 10; 89; 10; 90; 10].
+Definition wOK_new : list N := [88; 10; 89; 10; 90; 10; 97; 97; 97; 10; 98; 98; 98; 10; 99; 99; 99; 10; 110; 101; 119; 32; 195; 169; 10].
+Definition wOK_attrs : list attr := [mkAttr 0 12 [97; 105; 95; 49] 5; mkAttr 12 18 [104; 117; 109; 97; 110] 3].
+Definition wOK_author : list N := [97; 105; 95; 57].
+Definition wOK_facts : facts := mkFacts
+  [(DDel, [97; 97; 97; 10; 98; 98; 98; 10; 99; 99; 99]); (DDel, [10]); (DEq, [88; 10; 89; 10; 90; 10]); (DIns, [97; 97; 97; 10; 98; 98; 98; 10; 99; 99; 99; 10; 110; 101; 119; 32; 195; 169]); (DIns, [10])]
+  [(6, 24)]
+  [mkMv 0 0 0 11 0 12].
+
+Definition res_lines_eqb (a b : res (list lattr)) : bool :=
+  match a, b with
+  | Ok x, Ok y => (fix go (x y : list lattr) : bool :=
+                     match x, y with
+                     | [], [] => true
+                     | p :: x', q :: y' =>
+                         (l_start p =? l_start q) && (l_end p =? l_end q) && str_eqb (l_author p) (l_author q)
+                         && opt_str_eqb (l_overrode p) (l_overrode q) && go x' y'
+                     | _, _ => false
+                     end) x y
+  | Panic, Panic => true
+  | _, _ => false
+  end.
+
+Definition update_lines (new : list N) (attrs : list attr) (author : list N) (ts : N) (f : facts) : res (list lattr) :=
+  match update attrs author ts f with Ok l => to_lines l new | Panic => Panic end.
+
+(* K1: a block moved with its indentation stripped; the contract wf_diff + moves_ok holds, moves_fit does not *)
+Lemma bounded_refuted :
+  exists old new attrs author ts f out,
+    wf_diff old new f = true /\ moves_ok f = true /\ forallb attr_ordered attrs = true /\
+    valid_utf8 old = true /\ valid_utf8 new = true /\
+    update attrs author ts f = Ok out /\ exists a, In a out /\ blen new < a_end a.
+Proof.
+  exists wK1_old, wK1_new, wK1_attrs, wK1_author, 100, wK1_facts.
+  eexists. repeat (split; [vm_compute; reflexivity|]).
+  exists (mkAttr 6 25 [97; 105; 95; 49] 5). split; [left; reflexivity|vm_compute; reflexivity].
+Qed.
+
+(* K1, second half: the overrun lands on unchanged text, whose author set changes *)
+Lemma equal_keeps_refuted :
+  exists old new attrs author ts f out pre d post,
+    wf_diff old new f = true /\ moves_ok f = true /\ f_segs f = pre ++ (DEq, d) :: post /\
+    update attrs author ts f = Ok out /\
+    exists k au t, k < blen d /\ covers out (blen (cat_new pre) + k) au t /\
+                   ~ covers attrs (blen (cat_old pre) + k) au t.
+Proof.
+  exists wK1b_old, wK1b_new, wK1b_attrs, wK1b_author, 100, wK1b_facts.
+  eexists. exists (firstn 6 (f_segs wK1b_facts)), [87; 10], [].
+  split; [vm_compute; reflexivity|]. split; [vm_compute; reflexivity|]. split; [reflexivity|].
+  split; [vm_compute; reflexivity|].
+  exists 0, [97; 105; 95; 49], 5. split; [vm_compute; reflexivity|]. split.
+  - exists (mkAttr 6 25 [97; 105; 95; 49] 5). split; [left; reflexivity|].
+    cbn [a_author a_ts a_start a_end]. repeat split; vm_compute; congruence.
+  - intros [a [Ha [_ [_ [C D]]]]]. destruct Ha as [Ha|[]]. subst a. vm_compute in D. discriminate D.
+Qed.
+
+(* K4: a prior with start > end makes `attr.end - attr.start` underflow (debug build) *)
+Lemma update_inverted_panics :
+  exists old new attrs author ts f,
+    wf_diff old new f = true /\ moves_ok f = true /\ moves_fit f = true /\
+    update attrs author ts f = Panic.
+Proof.
+  exists wK4_old, wK4_new, wK4_attrs, wK4_author, 100, wK4_facts.
+  repeat split; vm_compute; reflexivity.
+Qed.
+
+(* K2: equal-ts priors of different authors on the same range: merge re-sorts them by author name *)
+Lemma identity_tie_refuted :
+  exists old attrs author ts f,
+    wf_diff old old f = true /\ f_segs f = [(DEq, old)] /\ f_moves f = [] /\
+    forallb attr_ordered attrs = true /\
+    res_lines_eqb (update_lines old attrs author ts f) (to_lines attrs old) = false.
+Proof.
+  exists wK2_old, wK2_attrs, wK2_author, 100, wK2_facts.
+  repeat split; vm_compute; reflexivity.
+Qed.
+
+(* K3: a zero-length prior (deletion marker) does not survive an update of an unchanged text *)
+Lemma identity_marker_refuted :
+  exists old attrs author ts f,
+    wf_diff old old f = true /\ f_segs f = [(DEq, old)] /\ f_moves f = [] /\
+    forallb attr_ordered attrs = true /\
+    res_lines_eqb (update_lines old attrs author ts f) (to_lines attrs old) = false.
+Proof.
+  exists wK3_old, wK3_attrs, wK3_author, 100, wK3_facts.
+  repeat split; vm_compute; reflexivity.
+Qed.
+
+(* the round trip without its side condition: overlapping line attributions, or a range that ends
+   beyond the last line (dropped entirely by line_attributions_to_attributions) *)
+Definition pairs_eqb (a b : list (N * list N)) : bool :=
+  (fix go (x y : list (N * list N)) : bool :=
+     match x, y with
+     | [], [] => true
+     | p :: x', q :: y' => (fst p =? fst q) && str_eqb (snd p) (snd q) && go x' y'
+     | _, _ => false
+     end) a b.
+Definition rt_same (c : list N) (la : list lattr) (ts : N) : bool :=
+  match to_lines (to_chars la c ts) c with
+  | Ok out => pairs_eqb (ai_lines out) (ai_lines la)
+  | Panic => false
+  end.
+
+Definition w_rt_text : list N := [97; 10; 98; 10; 99; 10].
+Definition w_ai1 : list N := [97; 105; 95; 49].
+Definition w_ai2 : list N := [97; 105; 95; 50].
+Lemma roundtrip_refuted :
+  rt_same w_rt_text [mkLattr 1 2 w_ai1 None; mkLattr 2 3 w_ai2 None] 0 = false /\
+  rt_same w_rt_text [mkLattr 2 9 w_ai1 None] 0 = false /\
+  rt_same w_rt_text [mkLattr 1 1 w_ai1 None; mkLattr 3 3 w_ai2 None] 0 = true.
+Proof. repeat split; vm_compute; reflexivity. Qed.
+
+(* non-vacuity: the facts of a real run with a moved block satisfy every contract *)
+Lemma contracts_nonvacuous :
+  wf_diff wOK_old wOK_new wOK_facts = true /\ moves_ok wOK_facts = true /\ moves_fit wOK_facts = true /\
+  f_moves wOK_facts <> [] /\ forallb attr_ordered wOK_attrs = true /\
+  valid_utf8 wOK_old = true /\ valid_utf8 wOK_new = true /\
+  wf_lattrs [mkLattr 1 1 w_ai1 None; mkLattr 3 3 w_ai2 None] (line_count w_rt_text) = true.
+Proof. repeat split; try (vm_compute; reflexivity). vm_compute. congruence. Qed.
